@@ -71,4 +71,9 @@ F59 replacing an annotation also replaces what evaluated
 F60 copes with source files that changed after import
 F61 results of the algebra get provenance lists of their own
 F62 drops the provenance of parameters it takes away
+F63 the signature of a class is that of making an instance
+F64 forwards_to_super finds the class of a method that modifiers wrapped
+F65 to an attribute that does not exist surfaces as ValueError
+F66 works on as_forged objects that carry their forger themselves
+F67 lies deeper than its caller
 LIST
